@@ -4,18 +4,21 @@ import GdVerif.Run.Savage2
 import GdVerif.Run.GenSavage2
 import GdVerif.Run.Ffow
 import GdVerif.Run.GenFfow
+import GdVerif.Run.TheShip
+import GdVerif.Run.GenTheShip
 /-
   Registration of the single-game families (C07): entries and generators.
 -/
 namespace Gd.Run
 
-def smallEntries : List (String × (List String → String)) := mindustryEntries ++ savage2Entries ++ ffowEntries
+def smallEntries : List (String × (List String → String)) := mindustryEntries ++ savage2Entries ++ ffowEntries ++ theShipEntries
 
 def smallGen (suite : String) (seed n : Nat) : Option (List String) :=
   match suite with
   | "mindustry" => some (genMindustry seed n)
   | "savage2" => some (genSavage2 seed n)
   | "ffow" => some (genFfow seed n)
+  | "theship" => some (genTheShip seed n)
   | _ => none
 
 end Gd.Run
